@@ -96,6 +96,18 @@ def vtt_documents(thorough):
                 yield doc.replace("\n", "\r"), want
 
 
+def vtt_special_documents():
+    """cues WITHOUT payload (a timing line followed by a blank line): they yield no caption and swallow nothing - neither a
+    NOTE block nor the next cue's identifier"""
+    a, b, s, e = VTT_TIMES[0]
+    yield (f"WEBVTT\n\n{a} --> {b}\n\nNOTE a comment after an empty cue\n\n01:00:03.000 --> 01:00:04.000\nx\n",
+           [(3603 * 1000000, 3604 * 1000000, ["x"])])
+    yield (f"WEBVTT\n\n{a} --> {b}\n\nintro\n01:00:03.000 --> 01:00:04.000\nx\n\n01:00:05.000 --> 01:00:06.000\n\n",
+           [(3603 * 1000000, 3604 * 1000000, ["x"])])
+    yield (f"WEBVTT\n\n{a} --> {b}\nfirst\n\n01:00:03.000 --> 01:00:04.000\n\nNOTE\nover two lines\n\n01:00:05.000 --> 01:00:06.000\nlast\n",
+           [(s, e, ["first"]), (3605 * 1000000, 3606 * 1000000, ["last"])])
+
+
 def microdvd_documents():
     lines_pool = [("hello", ["hello"]), ("a|b", ["a", "b"]), ("a||b", ["a", "b"]), ("one|two|three", ["one", "two", "three"]),
                   ("x & <y>", ["x & <y>"]), ("12", ["12"]),
@@ -140,7 +152,7 @@ def explore(ctx, thorough):
     F.object_classes = ("Caption", "CaptionList", "CaptionNode", "CaptionSet")
     out = {}
     for name, path, q, docs, attrs in (
-            ("WebVTT", "pycaption/webvtt.py", "WebVTTReader.read", vtt_documents(thorough),
+            ("WebVTT", "pycaption/webvtt.py", "WebVTTReader.read", itertools.chain(vtt_documents(thorough), vtt_special_documents()),
              {"ignore_timing_errors": True, "time_shift_microseconds": 0}),
             ("MicroDVD", "pycaption/microdvd.py", "MicroDVDReader.read", microdvd_documents(), {})):
         fn = ctx.index.get_function(path, q)
